@@ -10,6 +10,7 @@ from .common import MachineryError, run_tlc, tlc_failure_excerpt
 class BatchResult:
     def __init__(self):
         self.verdicts = {}  # (unit index, input index) 0-based -> verdict string
+        self.steps = {}  # (unit index, input index) -> length of the behaviour (machine steps)
         self.scope = {}  # unit index -> WellScoped verdict of the spec (ExoProgram!WellScoped)
         self.states = 0
         self.generated = 0
@@ -57,6 +58,7 @@ def run_units(units, workdir, stepbound=6000, timeout=1500, max_batch_bytes=24_0
             if isinstance(rec, dict) and "u" in rec and "i" in rec:
                 k = batch[rec["u"] - 1][0]
                 res.verdicts[(k, rec["i"] - 1)] = rec["v"]
+                res.steps[(k, rec["i"] - 1)] = rec.get("n", 0)
                 if rec["i"] == 1:
                     res.scope[k] = (bool(rec.get("wsa", True)), bool(rec.get("wsb", True)))
         os.unlink(path)
@@ -91,7 +93,7 @@ def classify(v: str) -> str:
         return "inconclusive"
     kind = v.split(":", 1)[1] if ":" in v else v
     k = kind.split("@")[0]
-    if k in ("inexact", "divzero"):
+    if k in ("inexact", "divzero", "winext"):
         return "inconclusive"
     return v.split(":")[0]
 
